@@ -191,11 +191,65 @@ func forEachInstr(fn *ssa.Function, f func(b *ssa.BasicBlock, i int, in ssa.Inst
 
 // withAnon returns fn and all functions nested in it.
 func withAnon(fn *ssa.Function) []*ssa.Function {
+	return withAnonSeen(fn, map[*ssa.Function]bool{})
+}
+
+// withAnonSeen: fn, its function literals, and — since a helper with a defer, labels or recursion is
+// not inlined by the normalisation — the new (not in the inventory) first-party functions they call
+// statically, transitively. Together they are "the code of fn" for rules that ask whether fn does
+// something at all.
+func withAnonSeen(fn *ssa.Function, seen map[*ssa.Function]bool) []*ssa.Function {
+	if fn == nil || seen[fn] {
+		return nil
+	}
+	seen[fn] = true
 	out := []*ssa.Function{fn}
 	for _, a := range fn.AnonFuncs {
-		out = append(out, withAnon(a)...)
+		out = append(out, withAnonSeen(a, seen)...)
+	}
+	for _, b := range fn.Blocks {
+		for _, in := range b.Instrs {
+			c := callOf(in)
+			if c == nil {
+				continue
+			}
+			if cal := c.StaticCallee(); cal != nil && len(cal.Blocks) > 0 && isNewFunc(cal) {
+				out = append(out, withAnonSeen(cal, seen)...)
+			}
+		}
 	}
 	return out
+}
+
+// isNewFunc: a first-party declared function or method that the inventory of the pinned tree does not list.
+func isNewFunc(fn *ssa.Function) bool {
+	if fn == nil || fn.Pkg == nil || fn.Parent() != nil || fn.Synthetic != "" || fn.Object() == nil {
+		return false
+	}
+	path := fn.Pkg.Pkg.Path()
+	if !strings.HasPrefix(path, modPath) {
+		return false
+	}
+	loadInventory()
+	recv := ""
+	if r := fn.Signature.Recv(); r != nil {
+		if n := namedOf(r.Type()); n != nil {
+			recv = n.Obj().Name()
+		}
+	}
+	if inventory[path+"."+recv+"."+fn.Name()] {
+		return false
+	}
+	// a function of the pinned tree that changed between method and plain function is not new
+	for k := range inventory {
+		if strings.HasPrefix(k, path+".") && strings.HasSuffix(k, "."+fn.Name()) && !strings.Contains(k, "$") {
+			rest := strings.TrimSuffix(strings.TrimPrefix(k, path+"."), "."+fn.Name())
+			if !strings.Contains(rest, ".") && !strings.Contains(rest, "/") {
+				return false
+			}
+		}
+	}
+	return true
 }
 
 // callsTo lists the call instructions in fn whose callee matches.
